@@ -18,7 +18,9 @@ VERIF = os.path.dirname(os.path.dirname(os.path.abspath(__file__)))
 REPO = os.environ.get("VERIF_REPO", "/repo")
 SPECS = os.path.join(VERIF, "specs")
 WORK = os.path.join(VERIF, "work")
-EVID = os.path.join(VERIF, "evidence")
+# VERIF_EVIDENCE_DIR / VERIF_REPO: used only by bin/seedrun to try a check against a scratch copy of the repository
+# without touching /repo or the committed evidence; the registered commands never set them.
+EVID = os.environ.get("VERIF_EVIDENCE_DIR", os.path.join(VERIF, "evidence"))
 TLA_CP = "/opt/veriftools/tla/tla2tools.jar:/opt/veriftools/tla/CommunityModules-deps.jar"
 NCPU = os.cpu_count() or 4
 
@@ -93,21 +95,31 @@ def run(cmd, cwd=None, env=None, timeout=None, stdin=None):
 def build_driver(ctx, race=False):
     """Builds the Go driver against /repo's current working tree with the hook tag on."""
     hdir = os.path.join(VERIF, "harness")
-    # go.sum must cover the repo's deps; refresh it from the tree under test
-    try:
-        shutil.copyfile(os.path.join(REPO, "go.sum"), os.path.join(hdir, "go.sum"))
-    except OSError:
-        pass
+    modfile = None
+    if REPO != "/repo":
+        # scratch copy of the repository: alternate go.mod (+ .sum) with the replace directive pointing at it
+        modfile = os.path.join(ctx.work, "alt.mod")
+        with open(os.path.join(hdir, "go.mod")) as f:
+            gm = f.read()
+        with open(modfile, "w") as f:
+            f.write(gm.replace("=> /repo", "=> " + REPO))
+        shutil.copyfile(os.path.join(REPO, "go.sum"), os.path.join(ctx.work, "alt.sum"))
+    else:
+        # go.sum must cover the repo's deps; refresh it from the tree under test
+        try:
+            shutil.copyfile(os.path.join(REPO, "go.sum"), os.path.join(hdir, "go.sum"))
+        except OSError:
+            pass
     bindir = os.path.join(WORK, "bin")
     os.makedirs(bindir, exist_ok=True)
     out = os.path.join(bindir, "drv-%s-%d%s" % (ctx.id, os.getpid(), "-race" if race else ""))
     cmd = ["go", "build", "-tags", "verif"]
     if race:
         cmd.append("-race")
+    if modfile:
+        cmd.append("-modfile=" + modfile)
     cmd += ["-o", out, "./cmd/drv"]
     env = goenv()
-    if REPO != "/repo":
-        raise Machinery("VERIF_REPO override is not supported by the harness replace directive")
     rc, so, se = run(cmd, cwd=hdir, env=env, timeout=900)
     if rc != 0:
         raise Machinery("driver build failed (does /repo compile with -tags verif?):\n" + se[-4000:])
@@ -397,6 +409,8 @@ def judge_records(ctx, family, module, cfg, recs, shards=None, timeout=900, env=
         write_ndjson(p, part)
         jobs.append((lo, p))
     workers = max(1, NCPU // len(jobs))
+    if heap is None:
+        heap = "%dg" % max(2, min(8, 32 // len(jobs)))      # all shards together stay below 32 GB
     bad = {}
     gen = dist = 0
 
